@@ -121,6 +121,14 @@ NEEDS = {
  'C14-h': ('C14', ['C15'], 'the .string setter of a single-token argument overwrites Token.text in place: the str value of the token keeps the old text, so text searches / .text still see the old string'),
  'C16-h': ('C16', ['C17'], 'a parameterless \\newcommand registers its name with signature (0,0) in the module-level table: a use before the definition is read with arguments on load 1 and without on load 2'),
  'C17-h': ('C17', ['C16'], '\\newcommand{\\x}[n]{..} writes the arity into the module-level signature table: a later parse of another document using `\\x` is read with the earlier document\'s arity'),
+ 'C07-i': ('C07', ['C06'], 'in tolerant mode a group stops before an unmatched `\\end` (outside definition bodies): `{\\small\\end{center}}` parses differently in strict and tolerant mode'),
+ 'C08-i': ('C08', ['C16'], 'TexExpr.string joins the whitespace-filtered contents: an environment name group with a blank-only piece (`\\begin{\\a \\b}`) loses the blank in the regenerated \\begin/\\end'),
+ 'C09-i': ('C09', ['C02'], 'a bracket group whose body contains a blank line is not attached (posing as TeX-faithful): `\\cmd[a\\n\\nb]{c}` gets no arguments'),
+ 'C12-i': ('C12', ['C11'], 'the tokenizer keeps an inline-math flag on the character buffer: an odd number of `$` in a verbatim body makes every later `$$` two single switches'),
+ 'C15-i': ('C15', ['C14'], 'TexCmd decides at construction whether it owns a body: a command renamed to `item` (or an item renamed away) keeps the old answer for append/insert/remove'),
+ 'C18-i': ('C18', ['C16'], 'TexGroup.parse rejects strings ending in an escaped delimiter: `{a\\\\}` (group ending in a line break) is refused although balanced'),
+ 'C19-i': ('C19', ['C13'], 'tokenize overwrites token positions with a running sum of token lengths: after a dropped NUL/DEL at a token boundary every later offset is one too small'),
+ 'C20-i': ('C20', [], 'Buffer.__next__ refills one item per recursive call: a forward jump over about 1000 unbuffered items raises RecursionError'),
 }
 
 
